@@ -1,5 +1,5 @@
 # C15: every sample lands in exactly one grid bin; grid files round-trip.
-import os, sys, json, math, re
+import glob, os, sys, json, math, re
 from fractions import Fraction as Fr
 import vcommon as V
 
@@ -211,7 +211,9 @@ def gen_hist(r, k):
         vars_.append(v)
     stepzero = r.random() < 0.3
     nsteps = r.randint(6, 20)
-    events = []   # (boundary?, [z values])
+    events = []   # (kind, [z values]); kind False = ordinary step, True = run boundary in the same process (the step is
+                  # re-evaluated with simulation_continuing), "r" = restart: state saved, fresh instance, state loaded, and
+                  # the step the state was written at is evaluated again (step_relative 0, step_absolute > 0)
     for s in range(nsteps):
         zs = []
         for v in vars_:
@@ -227,6 +229,9 @@ def gen_hist(r, k):
                 z += r.randint(-3, 3) * v["P"]
             zs.append(z)
         boundary = (s > 0) and r.random() < 0.15
+        if (s > 0) and not boundary and r.random() < 0.12:
+            boundary = "r"
+            zs = list(events[-1][1])   # a restart re-evaluates the configuration the state was written at
         events.append((boundary, zs))
     return {"vars": vars_, "stepzero": stepzero, "events": events, "id": k}
 
@@ -254,10 +259,16 @@ def hist_scenario(c, statefile):
               "    upperBoundary " + " ".join("%r" % v["upper"] for v in c["vars"]),
               "    width " + " ".join("%r" % v["w"] for v in c["vars"]), "  }"]
     L += ["}", "EOF", "show atomf 0 energy 0 bias 0"]
+    cfg = L[L.index("config EOF"):L.index("EOF") + 1]
+    nrest = 0
     for boundary, zs in c["events"]:
         for d, z in enumerate(zs):
             L.append("pos %d 0 0 %s" % (d + 1, V.hexf(z)))
-        if boundary:
+        if boundary == "r":
+            nrest += 1
+            rf = "%s.r%d" % (statefile, nrest)
+            L += ["save text %s" % rf, "fresh"] + cfg + ["load %s" % rf]
+        elif boundary:
             L.append("runboundary")
         L.append("step")
     L.append("save text %s" % statefile)
@@ -276,9 +287,11 @@ def hist_model_case(c):
     for boundary, zs in c["events"]:
         if first:
             first = False
+        elif boundary == "r":
+            rel = 0
         elif not boundary:
             rel += 1
-        parts += [str(rel), "1" if boundary else "0", "1"]
+        parts += [str(rel), "1" if boundary is True else "0", "1"]
         parts += ["W %d %s %s %s" % (1 if v["periodic"] else 0, V.hexf(v.get("c", 0.0)), V.hexf(v.get("P", 1.0)), V.hexf(z))
                   for v, z in zip(c["vars"], zs)]
         parts += [V.hexf(1.0)]
@@ -297,9 +310,11 @@ def hist_oracle(c):
     for boundary, zs in c["events"]:
         if first:
             first = False
+        elif boundary == "r":
+            rel = 0
         elif not boundary:
             rel += 1
-        elig = (rel > 0 and not boundary) or c["stepzero"]
+        elig = (rel > 0 and boundary is not True) or c["stepzero"]
         if not elig:
             continue
         a = 0
@@ -413,7 +428,8 @@ def check(run):
         run.count("hist%d" % k, counted >= 2 and rejected >= 1)
         run.dist("hist:nd=%d" % len(c["vars"]))
         run.dist("hist:periodic_vars", sum(1 for v in c["vars"] if v["periodic"]))
-        run.dist("hist:boundaries", sum(1 for b, _ in c["events"] if b))
+        run.dist("hist:boundaries", sum(1 for b, _ in c["events"] if b is True))
+        run.dist("hist:restarts", sum(1 for b, _ in c["events"] if b == "r"))
         if got is None or [float(x) for x in exp] != got:
             run.violation("hist:counts", "histogram counts %s differ from the exact histogram %s of the imposed values" % (got, exp),
                           {"kind": "hist", "scenario": open(sc).read(), "expected": exp, "got": got})
@@ -422,7 +438,7 @@ def check(run):
             run.mismatch("hist:counts", {"scenario": open(sc).read(), "model_case": mlines[k]}, got, mo)
         if k == 0:
             run.sample({"histogram_scenario": open(sc).read().split("\n")[:40], "counts": got})
-        for f in (sf, sc):
+        for f in [sf, sc] + glob.glob(sf + ".r*"):
             if os.path.exists(f):
                 os.remove(f)
     run.cov["correspondence"].update({"unit_cases": len(cases), "hist_scenarios": len(hcases)})
